@@ -44,6 +44,17 @@ func init() {
 			c := e.symVar(constStr(a[0], "label"), term.Bool)
 			return term.Ite(c, a[2].(*term.Term), a[1].(*term.Term))
 		}
+		I[vrtPath+".IsNonNilPointer"] = func(e *Engine, st *State, th *Thread, fn *ssa.Function, a []Value, in *ssa.Call) Value {
+			iv := e.pick(st, a[0]).(Iface)
+			if iv.T == nil {
+				return term.False
+			}
+			if _, ok := iv.T.Underlying().(*types.Pointer); !ok {
+				return term.False
+			}
+			p := e.pick(st, iv.V).(Ptr)
+			return term.BoolC(p.Obj != 0)
+		}
 		I["bytes.Equal"] = func(e *Engine, st *State, th *Thread, fn *ssa.Function, a []Value, in *ssa.Call) Value {
 			x, y := e.pick(st, a[0]).(Slice), e.pick(st, a[1]).(Slice)
 			if x.Len != y.Len {
